@@ -24,7 +24,7 @@ PROVIDED = ['no', 'class', 'direct', 'class-sub', 'direct-sub']     # '-sub': th
 ALT = ['absent', 'given', 'none']
 # 'other-only:default': an interface class of its own (an interfacemethod) that does not customise __adapt__; placed
 # right before the customised ones and collected at once, so that their classes may land where its class was
-CUSTOM = ['none', 'other-only:default'] + ['%s:%s' % (s, b) for s in ('own', 'inherited', 'inherited2', 'inherited-deep')
+CUSTOM = ['none', 'other-only:default'] + ['%s:%s' % (s, b) for s in ('own', 'inherited', 'inherited2', 'inherited-deep', 'kind', 'kind-derived', 'kind-mixin')
                                            for b in ('none', 'value', 'raise', 'super')]
 EXC = {'ValueError': ValueError, 'TypeError': TypeError, 'AttributeError': AttributeError,
        'KeyError': KeyError, 'RuntimeError': RuntimeError}
@@ -74,6 +74,17 @@ def build_iface(custom, log, state):
 
     def third(self):
         return 3
+    if shape.startswith('kind'):
+        # kinds of interface written the ordinary way: a subclass of InterfaceClass that defines __adapt__ in its body,
+        # a further subclass that merely inherits it, and one that gets it from a mix-in listed before InterfaceClass
+        if shape == 'kind-mixin':
+            Mixin = type('AdaptMixin', (object,), {'__adapt__': __adapt__})
+            Kind = type('MixedKind', (Mixin, InterfaceClass), {'describe': other})
+        else:
+            Kind = type('AdaptingKind', (InterfaceClass,), {'__adapt__': __adapt__})
+            if shape == 'kind-derived':
+                Kind = type('DerivedKind', (Kind,), {'describe': other})
+        return Kind('IT', (Interface,), {}, __module__=mod)
     base = InterfaceClass('IB', (Interface,), {INTERFACE_METHODS: {'__adapt__': __adapt__}}, __module__=mod)
     if shape == 'own':
         return base
@@ -297,7 +308,7 @@ def run_case(ctx, rng, job):
             ok = matches(eout, got, obj, iface) and log == elog and state.get('hook_args_ok', True) and state.get('conform_arg_ok', True)
             if not ok:
                 mech = None
-                if ctx.mode == 'c' and custom.split(':')[0] in ('inherited2', 'inherited-deep'):
+                if ctx.mode == 'c' and custom.split(':')[0] in ('inherited2', 'inherited-deep', 'kind-derived'):
                     mech = 'custom_adapt_marker_not_inherited'
                 ctx.violation('adaptation-order', {'case': [conform, provided, ''.join(hooks), alt, custom],
                                                    'expected_log': elog, 'log': list(log), 'expected': eout[0],
